@@ -96,7 +96,12 @@ fn check_layout(out: &[u8], tags: &[u32; K], vals: &[[u8; VL]; K], lens: &[usize
         }
         r += 1;
     }
-    // round trip through the decoder
+}
+
+/// MessageView accepts the emitted bytes and returns the same pairs in the same order through
+/// iteration, indexing and tag lookup.
+fn check_roundtrip(out: &[u8], tags: &[u32; K], vals: &[[u8; VL]; K], lens: &[usize; K], n: usize) {
+    let ord = stable_order(tags, n);
     let view = MessageView::new(std::borrow::Cow::Borrowed(out));
     assert!(view.is_ok());
     let view = view.unwrap();
@@ -118,20 +123,23 @@ fn check_layout(out: &[u8], tags: &[u32; K], vals: &[[u8; VL]; K], lens: &[usize
     }
     assert!(r == n);
     // tag lookup returns a value stored under exactly that tag
-    let probe: usize = kani::any();
-    kani::assume(probe < n);
-    let found = view.find(tags[probe]);
-    assert!(found.is_some());
-    let idx = view.find_tag(tags[probe]).unwrap();
-    assert!(le32(out, 4 * (n + idx)) == tags[probe]);
+    if n > 0 {
+        let probe: usize = kani::any();
+        kani::assume(probe < n);
+        let found = view.find(tags[probe]);
+        assert!(found.is_some());
+        let idx = view.find_tag(tags[probe]).unwrap();
+        assert!(le32(out, 4 * (n + idx)) == tags[probe]);
+    }
 }
 
-fn any_input() -> ([u32; K], [[u8; VL]; K], [usize; K], usize) {
+/// The pair count is enumerated by concrete loops in every harness (Vec lengths stay concrete for
+/// CBMC: `sort_by_key` and the Vec internals do not finish on a symbolic length); tags, value bytes and
+/// value lengths are symbolic.
+fn any_input(n: usize) -> ([u32; K], [[u8; VL]; K], [usize; K], usize) {
     let tags: [u32; K] = kani::any();
     let vals: [[u8; VL]; K] = kani::any();
     let lens: [usize; K] = kani::any();
-    let n: usize = kani::any();
-    kani::assume(n <= K);
     let mut i = 0;
     while i < K {
         kani::assume(lens[i] <= VL);
@@ -143,8 +151,26 @@ fn any_input() -> ([u32; K], [[u8; VL]; K], [usize; K], usize) {
 /// MessageWrapper::new (unsorted input, borrowed slices): layout, emitted == rough_tlv_len, round trip.
 #[kani::proof]
 #[kani::unwind(@@U11@@)]
-fn c11_new_layout_roundtrip() {
-    let (tags, vals, lens, n) = any_input();
+fn c11_new_layout() {
+    let mut n = 0;
+    while n <= K {
+        new_layout(n, false);
+        n += 1;
+    }
+}
+
+#[kani::proof]
+#[kani::unwind(@@U11@@)]
+fn c11_new_roundtrip() {
+    let mut n = 0;
+    while n <= @@KR@@ {
+        new_layout(n, true);
+        n += 1;
+    }
+}
+
+fn new_layout(n: usize, roundtrip: bool) {
+    let (tags, vals, lens, n) = any_input(n);
     let mut elements: Vec<(Tag, &[u8])> = Vec::new();
     let mut i = 0;
     while i < n {
@@ -157,7 +183,11 @@ fn c11_new_layout_roundtrip() {
     let mut sink = Rec::new();
     w.to_rough_tlv(&mut sink);
     assert!(sink.len == w.rough_tlv_len());
-    check_layout(&sink.buf[..sink.len], &tags, &vals, &lens, n);
+    if roundtrip {
+        check_roundtrip(&sink.buf[..sink.len], &tags, &vals, &lens, n);
+    } else {
+        check_layout(&sink.buf[..sink.len], &tags, &vals, &lens, n);
+    }
     kani::cover!(n == K && tags[0] > tags[1]);
     kani::cover!(n == K && tags[0] == tags[1] && lens[0] != lens[1]);
     kani::cover!(n == 0);
@@ -168,7 +198,15 @@ fn c11_new_layout_roundtrip() {
 #[kani::proof]
 #[kani::unwind(@@U11@@)]
 fn c11_cow_values() {
-    let (tags, vals, lens, n) = any_input();
+    let mut n = 0;
+    while n <= @@KR@@ {
+        cow_values(n);
+        n += 1;
+    }
+}
+
+fn cow_values(n: usize) {
+    let (tags, vals, lens, n) = any_input(n);
     let owned: [bool; K] = kani::any();
     let mut elements: Vec<(Tag, Cow<[u8]>)> = Vec::new();
     let mut n_owned = 0;
@@ -189,7 +227,7 @@ fn c11_cow_values() {
     assert!(sink.len == w.rough_tlv_len());
     assert!(sink.borrowed == n - n_owned);
     check_layout(&sink.buf[..sink.len], &tags, &vals, &lens, n);
-    kani::cover!(n == K && n_owned == 1);
+    kani::cover!(n == @@KR@@ && n_owned == 1);
 }
 
 /// new_from_sorted rejects exactly the lists whose tags decrease somewhere; accepted lists encode
@@ -197,7 +235,15 @@ fn c11_cow_values() {
 #[kani::proof]
 #[kani::unwind(@@U11@@)]
 fn c11_new_from_sorted() {
-    let (tags, vals, lens, n) = any_input();
+    let mut n = 0;
+    while n <= K {
+        new_from_sorted(n);
+        n += 1;
+    }
+}
+
+fn new_from_sorted(n: usize) {
+    let (tags, vals, lens, n) = any_input(n);
     let mut elements: Vec<(Tag, &[u8])> = Vec::new();
     let mut i = 0;
     while i < n {
@@ -271,9 +317,15 @@ impl<'a> ToRoughTLV<'a> for SymLen {
 #[kani::proof]
 #[kani::unwind(@@U11@@)]
 fn c11_length_limits_full_domain() {
+    let mut n = 0;
+    while n <= K {
+        length_limits(n);
+        n += 1;
+    }
+}
+
+fn length_limits(n: usize) {
     let lens: [usize; K] = kani::any();
-    let n: usize = kani::any();
-    kani::assume(n <= K);
     let mut elements: Vec<(Tag, SymLen)> = Vec::new();
     let mut i = 0;
     while i < n {
@@ -302,5 +354,5 @@ fn c11_length_limits_full_domain() {
     kani::cover!(too_big_value);
     kani::cover!(!too_big_value && total > i32::MAX as u128);
     kani::cover!(!expect_err && total == i32::MAX as u128);
-    kani::cover!(n == K && lens[0] == usize::MAX && lens[1] == usize::MAX);
+    kani::cover!(n == K && K >= 2 && lens[0] == usize::MAX && lens[K - 1] == usize::MAX);
 }
